@@ -114,14 +114,14 @@ Qed.
 
 Lemma nth_error_set_at_eq {A} i (x : A) l : i < length l -> nth_error (set_at i x l) i = Some x.
 Proof.
-  revert i; induction l as [|a l IH]; intros [|i] H; simpl in *; try lia; auto.
+  revert i; induction l as [|a l IH]; intros [|i] H; cbn [length] in *; try lia; auto.
   rewrite set_at_S. simpl. apply IH; lia.
 Qed.
 
 Lemma nth_error_set_at_neq {A} i j (x : A) l :
   i < length l -> i <> j -> nth_error (set_at i x l) j = nth_error l j.
 Proof.
-  revert i j; induction l as [|a l IH]; intros [|i] [|j] H Hn; simpl in *; try lia; auto.
+  revert i j; induction l as [|a l IH]; intros [|i] [|j] H Hn; cbn [length] in *; try lia; auto.
   rewrite set_at_S. simpl. apply IH; lia.
 Qed.
 
@@ -130,7 +130,7 @@ Proof. intros H. unfold set_at. symmetry. apply split_at_nth; assumption. Qed.
 
 Lemma set_at_set_at {A} i (x y : A) l : i < length l -> set_at i x (set_at i y l) = set_at i x l.
 Proof.
-  revert i; induction l as [|a l IH]; intros [|i] H; simpl in *; try lia; auto.
+  revert i; induction l as [|a l IH]; intros [|i] H; cbn [length] in *; try lia; auto.
   rewrite !set_at_S. f_equal. apply IH; lia.
 Qed.
 
@@ -138,16 +138,16 @@ Lemma set_at_comm {A} i j (x y : A) l :
   i < length l -> j < length l -> i <> j ->
   set_at i x (set_at j y l) = set_at j y (set_at i x l).
 Proof.
-  revert i j; induction l as [|a l IH]; intros [|i] [|j] Hi Hj Hn; simpl in *; try lia; auto.
+  revert i j; induction l as [|a l IH]; intros [|i] [|j] Hi Hj Hn; cbn [length] in *; try lia; auto.
   rewrite !set_at_S. f_equal. apply IH; lia.
 Qed.
 
 Lemma map_set_at {A B} (f : A -> B) i x l : map f (set_at i x l) = set_at i (f x) (map f l).
-Proof. unfold set_at. rewrite map_app. simpl. rewrite firstn_map, skipn_map. reflexivity. Qed.
+Proof. unfold set_at. rewrite map_app. cbn [map]. rewrite firstn_map, skipn_map. reflexivity. Qed.
 
 Lemma map_insert_at {A B} (f : A -> B) i x l :
   map f (insert_at i x l) = insert_at i (f x) (map f l).
-Proof. unfold insert_at. rewrite map_app. simpl. rewrite firstn_map, skipn_map. reflexivity. Qed.
+Proof. unfold insert_at. rewrite map_app. cbn [map]. rewrite firstn_map, skipn_map. reflexivity. Qed.
 
 Lemma map_remove_at {A B} (f : A -> B) i l : map f (remove_at i l) = remove_at i (map f l).
 Proof. unfold remove_at. rewrite map_app. rewrite firstn_map, skipn_map. reflexivity. Qed.
@@ -157,22 +157,120 @@ Lemma insert_after_set {A} i (a b : A) l :
   i < length l ->
   insert_at (S i) b (set_at i a l) = firstn i l ++ a :: b :: skipn (S i) l.
 Proof.
-  revert i; induction l as [|c l IH]; intros [|i] H; simpl in *; try lia; auto.
-  rewrite set_at_S, insert_at_S. f_equal. apply IH; lia.
+  revert i; induction l as [|c l IH]; intros [|i] H; cbn [length] in *; try lia; auto.
+  rewrite set_at_S, insert_at_S, firstn_cons, skipn_cons, <- app_comm_cons. f_equal. apply IH; lia.
 Qed.
 
-Lemma firstn_set_at_le {A} n i (x : A) l : n <= i -> firstn n (set_at i x l) = firstn n l.
+Lemma firstn_set_at_le {A} n i (x : A) l : n <= i -> i < length l -> firstn n (set_at i x l) = firstn n l.
 Proof.
-  revert n i; induction l as [|a l IH]; intros [|n] [|i] H; simpl in *; try lia; auto.
-  - unfold set_at. destruct n; reflexivity.
-  - unfold set_at. simpl. destruct n; simpl; [reflexivity|]. rewrite firstn_nil. destruct i; reflexivity.
-  - rewrite set_at_S. simpl. f_equal. apply IH; lia.
+  revert n i; induction l as [|a l IH]; intros [|n] [|i] H Hl; cbn [length] in *; try lia; auto.
+  rewrite set_at_S, !firstn_cons. f_equal. apply IH; lia.
 Qed.
 
 Lemma skipn_set_at_gt {A} n i (x : A) l : i < n -> i < length l -> skipn n (set_at i x l) = skipn n l.
 Proof.
-  revert n i; induction l as [|a l IH]; intros [|n] [|i] H Hl; simpl in *; try lia; auto.
+  revert n i; induction l as [|a l IH]; intros [|n] [|i] H Hl; cbn [length] in *; try lia; auto.
   rewrite set_at_S. simpl. apply IH; lia.
+Qed.
+
+(* ---------------- positions in l1 ++ x :: l2 ---------------- *)
+
+Lemma firstn_app_exact {A} (l1 l2 : list A) n : length l1 = n -> firstn n (l1 ++ l2) = l1.
+Proof.
+  intros <-. induction l1 as [|a l1 IH]; [reflexivity|].
+  cbn [length app]. rewrite firstn_cons, IH. reflexivity.
+Qed.
+
+Lemma skipn_app_exact {A} (l1 l2 : list A) n : length l1 = n -> skipn n (l1 ++ l2) = l2.
+Proof.
+  intros <-. induction l1 as [|a l1 IH]; [reflexivity|].
+  cbn [length app]. rewrite skipn_cons, IH. reflexivity.
+Qed.
+
+Lemma skipn_S_app_mid {A} (l1 l2 : list A) x n : length l1 = n -> skipn (S n) (l1 ++ x :: l2) = l2.
+Proof.
+  intros H. change (l1 ++ x :: l2) with (l1 ++ [x] ++ l2). rewrite app_assoc.
+  apply skipn_app_exact. rewrite app_length. simpl. lia.
+Qed.
+
+Lemma nth_error_app_mid {A} (l1 l2 : list A) x i : length l1 = i -> nth_error (l1 ++ x :: l2) i = Some x.
+Proof.
+  intros <-. rewrite nth_error_app2 by lia. rewrite Nat.sub_diag. reflexivity.
+Qed.
+
+Lemma nth_app_mid {A} (l1 l2 : list A) x d i : length l1 = i -> nth i (l1 ++ x :: l2) d = x.
+Proof. intros H. apply nth_error_nth. apply nth_error_app_mid; assumption. Qed.
+
+Lemma set_at_app_mid {A} (l1 l2 : list A) x y i :
+  length l1 = i -> set_at i y (l1 ++ x :: l2) = l1 ++ y :: l2.
+Proof.
+  intros H. unfold set_at. rewrite firstn_app_exact, skipn_S_app_mid by assumption. reflexivity.
+Qed.
+
+Lemma remove_at_app_mid {A} (l1 l2 : list A) x i :
+  length l1 = i -> remove_at i (l1 ++ x :: l2) = l1 ++ l2.
+Proof.
+  intros H. unfold remove_at. rewrite firstn_app_exact, skipn_S_app_mid by assumption. reflexivity.
+Qed.
+
+Lemma insert_at_app_mid {A} (l1 l2 : list A) y i :
+  length l1 = i -> insert_at i y (l1 ++ l2) = l1 ++ y :: l2.
+Proof.
+  intros H. unfold insert_at. rewrite firstn_app_exact, skipn_app_exact by assumption. reflexivity.
+Qed.
+
+Lemma app_cons_assoc {A} (l1 l2 : list A) x : l1 ++ x :: l2 = (l1 ++ [x]) ++ l2.
+Proof. rewrite <- app_assoc. reflexivity. Qed.
+
+Lemma length_snoc {A} (l : list A) x : length (l ++ [x]) = S (length l).
+Proof. rewrite app_length. simpl. lia. Qed.
+
+Lemma nth_error_app_mid_S {A} (l1 l2 : list A) x y i :
+  length l1 = i -> nth_error (l1 ++ x :: y :: l2) (S i) = Some y.
+Proof.
+  intros H. rewrite app_cons_assoc. apply nth_error_app_mid. rewrite length_snoc. lia.
+Qed.
+
+Lemma nth_app_mid_S {A} (l1 l2 : list A) x y d i :
+  length l1 = i -> nth (S i) (l1 ++ x :: y :: l2) d = y.
+Proof. intros H. apply nth_error_nth. apply nth_error_app_mid_S; assumption. Qed.
+
+Lemma set_at_app_mid_S {A} (l1 l2 : list A) x y z i :
+  length l1 = i -> set_at (S i) z (l1 ++ x :: y :: l2) = l1 ++ x :: z :: l2.
+Proof.
+  intros H. rewrite app_cons_assoc, (app_cons_assoc l1 (z :: l2)).
+  apply set_at_app_mid. rewrite length_snoc. lia.
+Qed.
+
+Lemma remove_at_app_mid_S {A} (l1 l2 : list A) x y i :
+  length l1 = i -> remove_at (S i) (l1 ++ x :: y :: l2) = l1 ++ x :: l2.
+Proof.
+  intros H. rewrite app_cons_assoc, (app_cons_assoc l1 l2).
+  apply remove_at_app_mid. rewrite length_snoc. lia.
+Qed.
+
+Lemma insert_at_app_mid_S {A} (l1 l2 : list A) x z i :
+  length l1 = i -> insert_at (S i) z (l1 ++ x :: l2) = l1 ++ x :: z :: l2.
+Proof.
+  intros H. rewrite app_cons_assoc, (app_cons_assoc l1 (z :: l2)).
+  apply insert_at_app_mid. rewrite length_snoc. lia.
+Qed.
+
+(* decomposition of a node's keys and children at a child position *)
+Lemma decomp_at {A B} (kvs : list A) (cs : list B) idx :
+  length cs = S (length kvs) -> idx <= length kvs ->
+  exists KA KB CA c CB,
+    kvs = KA ++ KB /\ cs = CA ++ c :: CB /\ length KA = idx /\ length CA = idx /\ length CB = length KB.
+Proof.
+  intros Hl Hi.
+  destruct (nth_error_lt_some cs idx ltac:(lia)) as [c Hc].
+  exists (firstn idx kvs), (skipn idx kvs), (firstn idx cs), c, (skipn (S idx) cs).
+  repeat split.
+  - symmetry; apply firstn_skipn.
+  - apply split_at_nth; assumption.
+  - apply len_firstn_le; assumption.
+  - apply len_firstn_le; lia.
+  - rewrite !skipn_length. lia.
 Qed.
 
 (* ---------------- Forall ---------------- *)
@@ -247,23 +345,19 @@ Lemma sumf_set_at {A} (f : A -> nat) i x l :
 Proof. unfold set_at. rewrite sumf_app, sumf_cons. lia. Qed.
 
 Lemma sumf_ge {A} (f : A -> nat) a l : Forall (fun x => a <= f x) l -> length l * a <= sumf f l.
-Proof.
-  induction 1 as [|x l Hx _ IH]; simpl; [lia|]. rewrite sumf_cons. lia.
-Qed.
+Proof. unfold sumf. induction 1 as [|x l Hx _ IH]; simpl; lia. Qed.
 
 Lemma sumf_le {A} (f : A -> nat) a l : Forall (fun x => f x <= a) l -> sumf f l <= length l * a.
-Proof.
-  induction 1 as [|x l Hx _ IH]; simpl; [rewrite sumf_nil; lia|]. rewrite sumf_cons. lia.
-Qed.
+Proof. unfold sumf. induction 1 as [|x l Hx _ IH]; simpl; lia. Qed.
 
 Lemma sumf_ext_le {A} (f g : A -> nat) l : Forall (fun x => f x <= g x) l -> sumf f l <= sumf g l.
-Proof. induction 1 as [|x l Hx _ IH]; simpl; [lia|]. rewrite !sumf_cons. lia. Qed.
+Proof. unfold sumf. induction 1 as [|x l Hx _ IH]; simpl; lia. Qed.
 
 Lemma sumf_ext {A} (f g : A -> nat) l : Forall (fun x => f x = g x) l -> sumf f l = sumf g l.
-Proof. induction 1 as [|x l Hx _ IH]; simpl; [reflexivity|]. rewrite !sumf_cons. lia. Qed.
+Proof. unfold sumf. induction 1 as [|x l Hx _ IH]; simpl; lia. Qed.
 
 Lemma sumf_zero {A} (f : A -> nat) l : Forall (fun x => f x = 0) l -> sumf f l = 0.
-Proof. induction 1 as [|x l Hx _ IH]; simpl; [reflexivity|]. rewrite sumf_cons. lia. Qed.
+Proof. unfold sumf. induction 1 as [|x l Hx _ IH]; simpl; lia. Qed.
 
 Lemma sumf_in_le {A} (f : A -> nat) l x : In x l -> f x <= sumf f l.
 Proof.
@@ -342,17 +436,6 @@ Proof.
   revert seps1; induction ls1 as [|l ls1 IH]; intros [|s seps1] H; simpl in *; try discriminate.
   - reflexivity.
   - rewrite IH by lia. rewrite <- app_assoc. reflexivity.
-Qed.
-
-(* ileft / iright exchange: (ls ++ [l]) against seps from the left = l0 ++ iright ... *)
-Lemma ileft_iright {A} (l0 : list A) ls seps :
-  length ls = length seps ->
-  ileft (l0 :: ls) seps ++ last (l0 :: ls) [] = l0 ++ iright seps ls.
-Proof.
-  revert l0 ls; induction seps as [|s seps IH]; intros l0 [|l ls] H; simpl in *; try discriminate.
-  - reflexivity.
-  - rewrite <- app_assoc. simpl. f_equal. f_equal.
-    specialize (IH l ls). simpl in IH. apply IH. lia.
 Qed.
 
 Lemma length_ileft {A} (ls : list (list A)) seps :
@@ -441,3 +524,35 @@ Section NodeInd.
   Lemma node_eta (x : node) : x = Node (nid x) (nkvs x) (ncs x).
   Proof. destruct x; reflexivity. Qed.
 End NodeInd.
+
+(* ---------------- misc ---------------- *)
+
+Lemma app_inv_length_l {A} (l1 l2 l1' l2' : list A) :
+  length l1' = length l1 -> l1 ++ l2 = l1' ++ l2' -> l1' = l1 /\ l2' = l2.
+Proof.
+  revert l1'; induction l1 as [|a l1 IH]; intros [|a' l1'] Hl H; simpl in *; try discriminate.
+  - auto.
+  - injection H as <- H. destruct (IH l1' ltac:(lia) H) as [-> ->]. auto.
+Qed.
+
+Lemma rev_case {A} (l : list A) : l = [] \/ exists l' x, l = l' ++ [x].
+Proof. destruct l as [|x l] using rev_ind; [auto|right; eauto]. Qed.
+
+Lemma split_at_len {A} (l : list A) i :
+  i < length l -> exists l1 x l2, l = l1 ++ x :: l2 /\ length l1 = i.
+Proof.
+  intros H. destruct (nth_error_lt_some l i H) as [x Hx].
+  exists (firstn i l), x, (skipn (S i) l). split.
+  - apply split_at_nth; assumption.
+  - apply len_firstn_le; lia.
+Qed.
+
+Lemma length_removelast {A} (l : list A) : l <> [] -> S (length (removelast l)) = length l.
+Proof.
+  intros H.
+  destruct l as [|a l] using rev_ind; [congruence|].
+  rewrite removelast_last, length_snoc. reflexivity.
+Qed.
+
+Lemma removelast_snoc_last {A} (l : list A) d : l <> [] -> l = removelast l ++ [last l d].
+Proof. apply app_removelast_last. Qed.
